@@ -10,7 +10,7 @@
      - how the start states are grouped into declaration lines (a line declares
        1 + |dl_seps| consecutive states of one kind), the spelling of the
        keyword (`%s`, `%S`, `%x`, `%X` followed by any alphanumerics), the blanks
-       after the keyword (>= 1), the ONE blank between two names, the blanks
+       after the keyword (>= 1), the blanks (>= 1) between two names, the blanks
        after the last name, the line separator, and the white space / comments
        after the line;
      - the horizontal blanks after the `%%`;
@@ -60,14 +60,14 @@ Record dline_lay := {
   dl_upper : bool;          (* %S / %X instead of %s / %x *)
   dl_kw : text;             (* the rest of the keyword: alphanumerics *)
   dl_gap : text;            (* blanks between the keyword and the first name (>= 1) *)
-  dl_seps : list N;         (* the blank before the 2nd, 3rd, … name: the line declares 1 + |dl_seps| states *)
+  dl_seps : list text;      (* the blanks (>= 1) before the 2nd, 3rd, … name: the line declares 1 + |dl_seps| states *)
   dl_trail : text;          (* blanks after the last name *)
   dl_nl : N;                (* the line separator *)
   dl_after : list ditem }.  (* white space / comments after the line *)
 
 Record rline_lay := {
   rl_pads : list (text * text);   (* blanks before / after the k-th name of the <..> prefix (default: none) *)
-  rl_blanks : text;               (* blanks after the regular expression, before the last one *)
+  rl_blanks : text;               (* blanks (spaces, tabs) after the regular expression, before the last one *)
   rl_sp : N;                      (* the last horizontal blank: space or tab *)
   rl_quote : qstyle;              (* quoting of the name *)
   rl_skip : skipstyle;            (* spelling of "no name" *)
@@ -99,10 +99,10 @@ Definition print_ritems (its : list ritem) : text := flat_map print_ritem its.
 Definition kw_char (excl upper : bool) : N :=
   (if excl then (if upper then 88 else 120) else (if upper then 83 else 115))%N.
 
-(* the 2nd, 3rd, … name of a declaration line, each behind its blank *)
-Fixpoint print_more (seps : list N) (names : list text) : text :=
+(* the 2nd, 3rd, … name of a declaration line, each behind its blanks *)
+Fixpoint print_more (seps : list text) (names : list text) : text :=
   match seps, names with
-  | s :: seps', n :: names' => s :: n ++ print_more seps' names'
+  | s :: seps', n :: names' => s ++ n ++ print_more seps' names'
   | _, _ => []
   end.
 
@@ -225,13 +225,13 @@ Fixpoint index_of (n : text) (names : list text) : nat :=
   | m :: names' => if text_eqb m n then 0 else S (index_of n names')
   end.
 
-(* the 2nd, 3rd, … state of a declaration line: [off] is the offset of the blank before it *)
-Fixpoint more_states (excl : bool) (off id : nat) (seps : list N) (names : list text) : list start_state :=
+(* the 2nd, 3rd, … state of a declaration line: [off] is the offset of the blanks before it *)
+Fixpoint more_states (excl : bool) (off id : nat) (seps : list text) (names : list text) : list start_state :=
   match seps, names with
   | s :: seps', n :: names' =>
-      {| ss_id := id; ss_name := n; ss_span := (off + len_utf8 s, off + len_utf8 s + byte_len n);
+      {| ss_id := id; ss_name := n; ss_span := (off + byte_len s, off + byte_len s + byte_len n);
          ss_exclusive := excl |}
-      :: more_states excl (off + len_utf8 s + byte_len n) (S id) seps' names'
+      :: more_states excl (off + byte_len s + byte_len n) (S id) seps' names'
   | _, _ => []
   end.
 
